@@ -1,3 +1,4 @@
+\* measured: 17,164 distinct / 2,271,165 generated states, ~45 s with 6 workers; channels = (g1,1),(g1,2),(g2,1)
 SPECIFICATION Spec
 CONSTANTS
   Users = {"u1", "u2"}
@@ -12,7 +13,7 @@ CONSTANTS
   Sizes = {1, 2, 3}
   Stray = FALSE
   BVals = {}
-  BSVs = {}
+  BSVs = {0}
 VIEW View
 INVARIANTS TypeOK C16_PassExact
 PROPERTIES C16_SourceVersionForward C16_CursorsForward C16_RecreateOnlyNewer C16_OlderSourceRefused C16_AckForward C16_FailedUnchanged
